@@ -482,9 +482,18 @@ class CallsMixin:
                 m = re.match(r'(\w+)\s*:\s*(.*)$', cl.text, re.S)
                 if m and m.group(1) == nm:
                     matched = True
-                    self.run_hint(st, SpecEnv(st, binds, st.entry), m.group(2), cl)
+                    if m.group(2).strip() != 'maypanic':
+                        self.run_hint(st, SpecEnv(st, binds, st.entry), m.group(2), cl)
+        maypanic = False
+        if self.frame and self.frame.contract:
+            for cl in self.frame.contract.get('oncall'):
+                m = re.match(r'(\w+)\s*:\s*maypanic\s*$', cl.text)
+                if m and m.group(1) == nm:
+                    maypanic = True
         if not matched:
             raise Unsupported('call through function value %s @%s without an oncall clause' % (nm, e.get('line')))
+        if maypanic and self.fork(st, fresh('cbpanics', B)):
+            raise PanicEx('callback %s panics' % nm)
         self.assumed.add('callback %s does not modify tracked state' % nm)
         tid = e.get('t')
         rtypes = []
